@@ -323,3 +323,70 @@ func H_C14_rt_label_follows_message() {
 	vAssert(m == vC14Label(msg), "C14 label: the message gains the label its own characters call for, whatever the value holds")
 	vReach("end")
 }
+
+// the same text split with two separators in either order (the rule splitter uses ',', the option
+// splitter of in / include uses '/'): each call's pieces belong to its own separator, and a third call
+// repeats the first
+func vC14TwoSeps(first int, lead bool, maxPost int) {
+	t := "'" + vndString("q", 2) + "'" + vndString("post", maxPost)
+	if lead {
+		t = vndString("pre", 1) + t
+	}
+	seps := []byte{',', '/'}
+	split := func(i int) []string {
+		if seps[i] == ',' {
+			return ValidNamesSplit(t)
+		}
+		return ValidNamesSplit(t, seps[i])
+	}
+	noloss := func(parts []string, sep byte, tag string) {
+		joined := strings.Join(parts, string([]byte{sep}))
+		vAssert(vOr(joined == t, joined+string([]byte{sep}) == t), "C14 split "+tag+": pieces joined by this call's separator give back the text")
+	}
+	p1 := append([]string(nil), split(first)...)
+	noloss(p1, seps[first], "first call")
+	p2 := split(1 - first)
+	noloss(p2, seps[1-first], "second call, other separator, same text")
+	p3 := split(first)
+	vAssert(len(p3) == len(p1), "C14 split: a repeated call gives the same number of pieces")
+	if len(p3) == len(p1) {
+		for i := range p3 {
+			vAssert(p3[i] == p1[i], "C14 split: a repeated call gives the same pieces")
+		}
+	}
+	vReach("end")
+}
+
+func H_C14_split_two_separators_comma_first()   { vC14TwoSeps(0, false, 2) }
+func H_C14_split_two_separators_slash_first()   { vC14TwoSeps(1, false, 2) }
+func H_C14_split_two_separators_comma_first_l() { vC14TwoSeps(0, true, 2) }
+func H_C14_split_two_separators_slash_first_l() { vC14TwoSeps(1, true, 2) }
+func H_C14T_split_two_separators_comma_first()  { vC14TwoSeps(0, true, 3) }
+func H_C14T_split_two_separators_slash_first()  { vC14TwoSeps(1, true, 3) }
+
+// messages that themselves contain the words the labels are made of ("explain:", "说明:") are messages like
+// any other: recovered whole, with their label in front
+func H_C14_rt_message_with_label_words() {
+	word := []string{"explain:", "说明:", "explain", "说明", "Explain:", "explain: explain:"}[vndChoice("word", 6)]
+	pre, post := vndString("pre", 1), vndString("post", 1)
+	msg := pre + word + post
+	vAssume(vValidUTF8(msg))
+	vAssume(vNoByte(pre+post, ','))
+	vAssume(vNoByte(pre+post, '\''))
+	vAssume(vNoByte(pre+post, '|'))
+	key := vC14Keys[vndChoice("key", len(vC14Keys))]
+	val := ""
+	if vndBool("withVal") {
+		val = "1~2"
+	}
+	text := GenValidKV(key, val, msg)
+	parts := ValidNamesSplit(NewRule().Set("F", text).Get("F"))
+	vAssert(len(parts) == 1, "C14 roundtrip (label words in the message): one rule in, one rule out")
+	if len(parts) == 1 {
+		k, v, m := ParseValidNameKV(parts[0])
+		vAssert(k == key, "C14 roundtrip (label words in the message): key recovered")
+		vAssert(v == vC14Value(key, val), "C14 roundtrip (label words in the message): value recovered")
+		vAssert(m == vC14Label(msg), "C14 roundtrip (label words in the message): message recovered whole, with its label")
+	}
+	vReach("end")
+}
